@@ -18,7 +18,9 @@ EXTRACT = "extract/ExC20.v"
 OBLIGATION = "toposort"
 THEOREMS = ["C20_topo", "C20_checker_sound", "C20_checker_complete", "C20_trace_inclusion", "C20_hyps_satisfiable"]
 RULE = ("random DAGs (linear, forks, merges up to 6 parents, repeated parents, several roots, disconnected "
-        "components), ids relabelled at random, log order shuffled; non-trivial = at least one merge "
+        "components), ids relabelled at random, log order shuffled; plus deep histories of 1100-2600 (thorough: up to 12000) "
+        "revisions in a row - linear, mostly linear with side branches, merge ladders - newest-first, oldest-first and "
+        "shuffled; non-trivial = at least one merge "
         "(>=2 parents) or >=2 roots; distinct = distinct (log) request")
 TRUSTED = ["Python dict/deque/defaultdict semantics as modelled in model/Topo.v (dict keeps last value per key, "
            "defaultdict(list) appends, deque FIFO generalised to an arbitrary pick oracle)"]
@@ -73,6 +75,23 @@ def gen(rng, tier):
             perm = dag[:]
             rng.shuffle(perm)
             cases.append({"log": perm})
+    # deep histories: thousands of revisions in a row (longer than the interpreter's recursion limit), as real logs are
+    for k, n in enumerate([1100, 1500, 2600] if tier == "quick" else [1001, 1100, 1500, 2600, 5000, 12000, 1300, 1700, 3100]):
+        dag = []
+        for i in range(n):
+            ps = [i - 1] if i else []
+            if k % 3 == 1 and i > 3 and rng.random() < 0.05:        # mostly linear, a few side branches merged back
+                ps.append(rng.randrange(i - 1))
+            if k % 3 == 2 and i > 1 and i % 2 == 0:                  # a ladder: every other revision also merges i-2
+                ps.append(i - 2)
+            dag.append([i + 1, [p + 1 for p in ps]])
+        for order in ("newest-first", "oldest-first", "shuffled"):
+            perm = dag[:]
+            if order == "newest-first":
+                perm.reverse()
+            elif order == "shuffled":
+                rng.shuffle(perm)
+            cases.append({"log": perm})
     if tier == "thorough":
         # exhaustive: all DAGs on <= 4 nodes (parents among earlier nodes, as sets) x all permutations
         for n in range(0, 5):
@@ -91,7 +110,7 @@ def nontrivial(c):
 
 def classify(c):
     log = c["log"]
-    ks = ["n=%s" % (len(log) if len(log) < 6 else "6-20" if len(log) <= 20 else ">20")]
+    ks = ["n=%s" % (len(log) if len(log) < 6 else "6-20" if len(log) <= 20 else "21-999" if len(log) < 1000 else ">=1000")]
     if any(len(ps) >= 2 for _, ps in log):
         ks.append("merge")
     if any(len(set(ps)) < len(ps) for _, ps in log):
@@ -167,6 +186,12 @@ def compare(c, ires, mres):
 
 def shrink(c):
     log = c["log"]
+    size = len(log) // 2
+    while size >= 8:                      # long logs: drop whole chunks first
+        for a in range(0, len(log), size):
+            gone = {i for i, _ in log[a:a + size]}
+            yield {"log": [[i, [p for p in ps if p not in gone]] for i, ps in log if i not in gone]}
+        size //= 2
     for k in range(len(log)):
         gone = log[k][0]
         yield {"log": [[i, [p for p in ps if p != gone]] for j, (i, ps) in enumerate(log) if j != k]}
